@@ -39,10 +39,24 @@ def panic_inventory(crate, syn, prop="C16"):
     for (caller, callee), ss in sorted(panics.group(sites).items()):
         where = ", ".join(sorted({"%s:%s" % (s["file"], s["line"]) for s in ss}))
         g = guards.get((caller, callee))
+        if g is None:
+            # the guarded operation may have moved to a neighbour of the function the guard was written for: same callee,
+            # applied to the same kind of value, in the same source file
+            for (gc, gcal), gv in guards.items():
+                gb = crate.by_path.get(gc) or []
+                cb_ = crate.by_path.get(caller) or []
+                if gcal == callee and gv.get("origin") and all(re.search(gv["origin"], s.get("origin", "")) for s in ss) and gb and cb_ and gb[0].file() == cb_[0].file():
+                    g = gv
         st = [site_status(crate, s, just) for s in ss]
         open_ = [s for s, (k, _) in zip(ss, st) if k == "open"]
         if open_ and g is not None and g["ok"] and g["count"] >= len(open_):
             status, reason, open_ = "discharged-by-guard", g["why"], []
+        elif open_ and any(gk[1] == callee and gv.get("unknown") and all(re.search(gv["origin"], s.get("origin", "")) for s in open_) for gk, gv in guards.items()):
+            # the argument that discharges this kind of site rests on other code (who calls this function, what another
+            # function rejects) which the recogniser can no longer read: undecided, reported as such
+            r.fail(prop, "anchor-missing guard for %s on %s" % (callee.split("::")[-1], open_[0].get("origin")),
+                   "the code the discharge of this site rests on was restructured and could not be read (site in %s)" % caller, open_[0]["file"], open_[0]["line"])
+            status, reason, open_ = "undecided", "guard not readable", []
         elif open_:
             status, reason = "UNJUSTIFIED", None
         else:
@@ -92,7 +106,8 @@ def _syntactic_guards(crate, syn, r, prop):
         # and nobody else calls newtype::newtype
         others = [f["qual"] for f in syn.fns if f is not td for e in S.events(f, "call") if S.squash(e["func"]).endswith("newtype::newtype")]
         out[("types::newtype::newtype", "std::option::Option::<T>::unwrap")] = {
-            "ok": ok and not others, "count": 1, "why": "newtype() is only called from type_def's `1 =>` arm of `match unnamed.unnamed.len()`"}
+            "ok": ok and not others, "count": 1, "why": "newtype() is only called from type_def's `1 =>` arm of `match unnamed.unnamed.len()`",
+            "unknown": not (ok and not others) and not others, "origin": r"Punctuated::<T, P>::first$"}
     # (d) skip_until_next_comma: the closure given to step() never returns Err
     clos = [b for b in crate.bodies if b.path.startswith("attr::skip_until_next_comma::{closure")]
     ok = bool(clos)
@@ -108,9 +123,10 @@ def _syntactic_guards(crate, syn, r, prop):
         "ok": ok, "count": 1, "why": "the closure passed to ParseBuffer::step only ever constructs Ok(..)"}
     # (e) from_variant's expect(): EnumAttr::assert_validity rejects every combination tagged() rejects
     ok, why = _tagged_agreement(syn)
-    out[("attr::r#struct::StructAttr::from_variant", "std::result::Result::<T, E>::expect")] = {"ok": ok, "count": 1, "why": why}
+    out[("attr::r#struct::StructAttr::from_variant", "std::result::Result::<T, E>::expect")] = {"ok": ok, "count": 1, "why": why,
+                                                                                               "unknown": (not ok) and str(why).startswith(("no `match", "anchor missing")), "origin": r"EnumAttr::tagged$"}
     if not ok:
-        r.fail(prop, "tagged-validity-disagree EnumAttr::tagged vs EnumAttr::assert_validity",
+        r.fail(prop, ("anchor-missing tagged/assert_validity tables" if str(why).startswith(("no `match", "anchor missing")) else "tagged-validity-disagree EnumAttr::tagged vs EnumAttr::assert_validity"),
                "from_variant() calls enum_attr.tagged().expect(..) relying on assert_validity having rejected the same (untagged, tag, content) combinations: " + why)
     return out
 
